@@ -299,3 +299,436 @@ func init() {
 		fmt.Println("REPLAY: not-reproduced")
 	}
 }
+
+// replay of a failed obligation of Refresh's initAppenderRefs closure: every registered logger class is
+// instantiated from a minimal configuration through the real Refresh.
+func init() {
+	replayers["Refresh/initAppenderRefs"] = func(in map[string]any) {
+		var out bytes.Buffer
+		save := Stdout
+		Stdout = &out
+		defer func() { Stdout = save }()
+		dir, err := os.MkdirTemp("", "govc-replay-")
+		if err != nil {
+			fmt.Println("REPLAY: not-reproduced (no scratch directory)")
+			return
+		}
+		defer os.RemoveAll(dir)
+		if wd, err := os.Getwd(); err == nil {
+			defer os.Chdir(wd)
+		}
+		os.Chdir(dir)
+		var names []string
+		for n := range pluginRegistry[PluginTypeLogger] {
+			names = append(names, n)
+		}
+		sort.Strings(names)
+		for _, n := range names {
+			cfg := map[string]string{
+				"appender.console.type":           "Console",
+				"logger.myLogger.type":            "Logger",
+				"logger.myLogger.tags":            "_replayx_*",
+				"logger.myLogger.appenderRef.ref": "console",
+				"logger.lx.type":                  n,
+				"logger.lx.tags":                  "_replayy_*",
+				"logger.lx.appenderRef.ref":       "console",
+				"logger.lx.fileDir":               dir,
+				"logger.lx.fileName":              "replay.log",
+				"logger.lx.rotation":              "1h",
+			}
+			msg := func() (msg string) {
+				defer func() {
+					if r := recover(); r != nil {
+						msg = fmt.Sprintf("Refresh panics for a logger of registered type %q: %v", n, r)
+					}
+				}()
+				Destroy()
+				if err := Refresh(cfg); err != nil {
+					return ""
+				}
+				return ""
+			}()
+			func() {
+				defer func() { recover() }()
+				Destroy()
+			}()
+			global.init = false
+			if msg != "" {
+				fmt.Println("REPLAY: confirmed", msg)
+				return
+			}
+		}
+		fmt.Println("REPLAY: not-reproduced")
+	}
+}
+
+// ---------------------------------------------------------------------------------------------------
+// C15, bounded: the real Refresh over a grammar of configurations
+
+type c15Run struct {
+	cases, distinct int
+	seen            map[string]bool
+	violations      int
+}
+
+func (r *c15Run) fail(what string, cfg map[string]string) {
+	r.violations++
+	if r.violations <= 4 {
+		var ks []string
+		for k := range cfg {
+			ks = append(ks, k)
+		}
+		sort.Strings(ks)
+		var sb strings.Builder
+		for _, k := range ks {
+			fmt.Fprintf(&sb, "%s=%q ", k, cfg[k])
+		}
+		fmt.Printf("BOUNDED-VIOLATION: %s; configuration: %s\n", what, sb.String())
+	}
+}
+
+// refresh runs the real Refresh, turning a panic into a string; the system is destroyed afterwards by the caller
+func (r *c15Run) refresh(cfg map[string]string) (err error, panicked string) {
+	r.cases++
+	defer func() {
+		if p := recover(); p != nil {
+			panicked = fmt.Sprint(p)
+			global.init = true
+		}
+	}()
+	return Refresh(cfg), ""
+}
+
+func (r *c15Run) done() {
+	defer func() { recover() }()
+	Destroy()
+}
+
+func (r *c15Run) outcome(k string) {
+	if !r.seen[k] {
+		r.seen[k] = true
+		r.distinct++
+	}
+}
+
+func cloneCfg(m map[string]string) map[string]string {
+	n := map[string]string{}
+	for k, v := range m {
+		n[k] = v
+	}
+	return n
+}
+
+func c15Base(dir string) map[string]string {
+	return map[string]string{
+		"appender.console.type":  "Console",
+		"appender.file.type":     "File",
+		"appender.file.fileDir":  dir,
+		"appender.file.fileName": "a.log",
+		"appender.roll.type":     "RollingFile",
+		"appender.roll.fileDir":  dir,
+		"appender.roll.fileName": "r.log",
+		"appender.roll.rotation": "h",
+		"appender.roll.maxAge":   "24",
+		"appender.null.type":     "Discard",
+
+		"logger.root.type":            "Logger",
+		"logger.root.level":           "info",
+		"logger.root.appenderRef.ref": "console",
+
+		"logger.myLogger.type":               "AsyncLogger",
+		"logger.myLogger.tags":               "_replayx_*",
+		"logger.myLogger.bufferSize":         "160",
+		"logger.myLogger.appenderRef[0].ref": "file",
+		"logger.myLogger.appenderRef[1].ref": "console",
+		"logger.myLogger.appenderRef[1].level": "warn~error",
+	}
+}
+
+func findLogger(name string) Logger {
+	for _, l := range global.loggers {
+		if l.GetName() == name {
+			return l
+		}
+	}
+	return nil
+}
+
+func TestGovcBounded_C15(t *testing.T) {
+	if os.Getenv("GOVC_BOUNDED") == "" {
+		t.Skip("no bounded run requested")
+	}
+	thorough := os.Getenv("GOVC_BOUNDED") == "thorough"
+	var out bytes.Buffer
+	save := Stdout
+	Stdout = &out
+	defer func() { Stdout = save }()
+	dir, err := os.MkdirTemp("", "govc-bounded-")
+	if err != nil {
+		fmt.Println("BOUNDED-VIOLATION: no scratch directory")
+		return
+	}
+	defer os.RemoveAll(dir)
+	// configurations without fileDir fall back to ./logs: keep every file inside the scratch directory
+	if wd, err := os.Getwd(); err == nil {
+		defer os.Chdir(wd)
+	}
+	if err := os.Chdir(dir); err != nil {
+		fmt.Println("BOUNDED-VIOLATION: cannot enter the scratch directory")
+		return
+	}
+	saveCap := BufferCap.Load()
+	defer BufferCap.Store(saveCap)
+	r := &c15Run{seen: map[string]bool{}}
+	r.done()
+	base := c15Base(dir)
+
+	// (1) the base configuration is accepted and resolves as declared
+	if err, p := r.refresh(base); err != nil || p != "" {
+		r.fail(fmt.Sprintf("the base configuration is rejected: err=%v panic=%s", err, p), base)
+	} else {
+		al, _ := findLogger("myLogger").(*AsyncLogger)
+		rl, _ := findLogger("root").(*SyncLogger)
+		switch {
+		case al == nil || rl == nil:
+			r.fail("configured loggers are not instantiated with their classes", base)
+		case al.BufferSize != 160:
+			r.fail(fmt.Sprintf("configured bufferSize=160 resolves to %d", al.BufferSize), base)
+		case al.BufferFullPolicy != BufferFullPolicyDiscard:
+			r.fail(fmt.Sprintf("default bufferFullPolicy=Discard resolves to %d", al.BufferFullPolicy), base)
+		case rl.Level.MinLevel != InfoLevel || rl.Level.MaxLevel != MaxLevel:
+			r.fail("level=info does not resolve to [INFO, MAX)", base)
+		case al.Name != "myLogger" || al.Tags != "_replayx_*":
+			r.fail("name/tags do not resolve as configured", base)
+		case len(al.AppenderRefs.AppenderRefs) != 2:
+			r.fail("indexed appenderRef list does not resolve to two references", base)
+		}
+		r.outcome("base-ok")
+	}
+	r.done()
+
+	// (2) every registered logger and appender class can be instantiated from configuration
+	for _, typ := range []PluginType{PluginTypeAppender, PluginTypeLogger} {
+		var names []string
+		for n := range pluginRegistry[typ] {
+			names = append(names, n)
+		}
+		sort.Strings(names)
+		for _, n := range names {
+			cfg := cloneCfg(base)
+			prefix := "appender.zz"
+			if typ == PluginTypeLogger {
+				prefix = "logger.zz"
+				cfg[prefix+".tags"] = "_bc15_*"
+				cfg[prefix+".appenderRef.ref"] = "console"
+			}
+			cfg[prefix+".type"] = n
+			cfg[prefix+".fileDir"] = dir
+			cfg[prefix+".fileName"] = "zz.log"
+			cfg[prefix+".rotation"] = "10m"
+			cfg[prefix+".maxAge"] = "1"
+			err, p := r.refresh(cfg)
+			if p != "" {
+				r.fail(fmt.Sprintf("Refresh panics instantiating registered %s class %q: %s", typ, n, p), cfg)
+			} else if err != nil {
+				r.fail(fmt.Sprintf("registered %s class %q cannot be instantiated from a complete configuration: %v", typ, n, err), cfg)
+			}
+			r.outcome("class:" + string(typ) + ":" + n)
+			r.done()
+		}
+	}
+
+	// (3) key spellings and inline sub-trees are equivalent
+	type variant struct {
+		name string
+		edit func(cfg map[string]string)
+	}
+	spell := []variant{
+		{"kebab", func(c map[string]string) { delete(c, "logger.myLogger.bufferSize"); c["logger.myLogger.buffer-size"] = "160" }},
+		{"snake", func(c map[string]string) { delete(c, "logger.myLogger.bufferSize"); c["logger.myLogger.buffer_size"] = "160" }},
+		{"kebab-path", func(c map[string]string) {
+			delete(c, "logger.root.appenderRef.ref")
+			c["logger.root.appender-ref.ref"] = "console"
+		}},
+		{"snake-path", func(c map[string]string) {
+			delete(c, "logger.root.appenderRef.ref")
+			c["logger.root.appender_ref.ref"] = "console"
+		}},
+		{"upper-initial", func(c map[string]string) { delete(c, "logger.myLogger.bufferSize"); c["logger.myLogger.BufferSize"] = "160" }},
+		{"inline-appender", func(c map[string]string) {
+			delete(c, "appender.file.type")
+			delete(c, "appender.file.fileDir")
+			delete(c, "appender.file.fileName")
+			c["appender.file!"] = fmt.Sprintf("File{fileDir=%q, fileName=\"a.log\"}", dir)
+		}},
+		{"inline-layout", func(c map[string]string) { c["appender.console.layout!"] = "TextLayout{}" }},
+		{"inline-element", func(c map[string]string) {
+			delete(c, "logger.root.appenderRef.ref")
+			c["logger.root.appenderRef!"] = "AppenderRef{ref=console}"
+		}},
+		{"inline-snake-keys", func(c map[string]string) {
+			delete(c, "logger.myLogger.bufferSize")
+			delete(c, "logger.myLogger.type")
+			delete(c, "logger.myLogger.tags")
+			c["logger.myLogger!"] = "AsyncLogger{buffer_size=160, tags=\"_replayx_*\"}"
+		}},
+	}
+	for _, v := range spell {
+		cfg := cloneCfg(base)
+		v.edit(cfg)
+		err, p := r.refresh(cfg)
+		if err != nil || p != "" {
+			r.fail(fmt.Sprintf("the %s spelling of the base configuration is rejected: err=%v panic=%s", v.name, err, p), cfg)
+		} else {
+			al, _ := findLogger("myLogger").(*AsyncLogger)
+			rl, _ := findLogger("root").(*SyncLogger)
+			if al == nil || rl == nil || al.BufferSize != 160 || len(rl.AppenderRefs.AppenderRefs) != 1 || rl.AppenderRefs.AppenderRefs[0].Ref != "console" || len(al.AppenderRefs.AppenderRefs) != 2 {
+				r.fail("the "+v.name+" spelling does not resolve to the same plugins as the base configuration", cfg)
+			}
+		}
+		r.outcome("spelling:" + v.name)
+		r.done()
+	}
+
+	// (4) defaults, required attributes and ${key} substitution
+	{
+		cfg := cloneCfg(base)
+		delete(cfg, "logger.myLogger.bufferSize")
+		if err, p := r.refresh(cfg); err != nil || p != "" {
+			r.fail(fmt.Sprintf("a defaulted attribute makes Refresh fail: err=%v panic=%s", err, p), cfg)
+		} else if al, _ := findLogger("myLogger").(*AsyncLogger); al == nil || al.BufferSize != 10000 {
+			r.fail("an absent bufferSize does not take its declared default 10000", cfg)
+		}
+		r.outcome("default")
+		r.done()
+		for _, req := range []string{"appender.file.fileName", "appender.roll.rotation", "appender.roll.maxAge", "appender.roll.fileName", "logger.root.appenderRef.ref", "logger.myLogger.type", "appender.console.type"} {
+			cfg := cloneCfg(base)
+			delete(cfg, req)
+			err, p := r.refresh(cfg)
+			if p != "" {
+				r.fail("Refresh panics when the required "+req+" is absent: "+p, cfg)
+			} else if err == nil {
+				r.fail("Refresh accepts a configuration without the required "+req, cfg)
+			}
+			r.outcome("required:" + req)
+			r.done()
+		}
+		cfg = cloneCfg(base)
+		cfg["logger.myLogger.bufferSize"] = "${queue-size}"
+		cfg["queueSize"] = "120"
+		if err, p := r.refresh(cfg); err != nil || p != "" {
+			r.fail(fmt.Sprintf("${key} substitution fails: err=%v panic=%s", err, p), cfg)
+		} else if al, _ := findLogger("myLogger").(*AsyncLogger); al == nil || al.BufferSize != 120 {
+			r.fail("${queue-size} is not replaced by the top-level property queueSize=120", cfg)
+		}
+		r.outcome("subst")
+		r.done()
+		delete(cfg, "queueSize")
+		if err, p := r.refresh(cfg); p != "" || err == nil {
+			r.fail(fmt.Sprintf("a ${key} without the top-level property is not an error: err=%v panic=%s", err, p), cfg)
+		}
+		r.outcome("subst-missing")
+		r.done()
+	}
+
+	// (5) values that do not convert, unknown classes, dangling references: an error, never a panic
+	bad := map[string][]string{
+		"logger.myLogger.bufferSize":            {"abc", "", "1.5", "12x", "0x", "999999999999999999999999"},
+		"logger.myLogger.bufferFullPolicy":      {"block", "Drop", "", "1"},
+		"logger.root.level":                     {"loud", "info~", "~error", "info~loud", "~"},
+		"logger.myLogger.appenderRef[1].level":  {"x", "warn~y"},
+		"appender.roll.rotation":                {"", "1h", "hourly", "H"},
+		"appender.roll.maxAge":                  {"x", "", "1e3", "99999999999", "-99999999999", "1.0"},
+		"appender.console.type":                 {"console", "Nope", ""},
+		"logger.root.type":                      {"SyncLogger", "logger", ""},
+		"appender.console.layout.type":          {"Nope", "textLayout"},
+		"appender.console.layout.fileLineLength": {"wide", "4.5", ""},
+		"logger.root.appenderRef.ref":           {"nope", "", "Console"},
+		"logger.myLogger.appenderRef[0].ref":    {"missing"},
+		"bufferCap":                             {"10", "KB", "1GB", "-1KB", "1.5KB"},
+		"enableCaller":                          {"yes!", "2"},
+	}
+	var bkeys []string
+	for k := range bad {
+		bkeys = append(bkeys, k)
+	}
+	sort.Strings(bkeys)
+	for _, k := range bkeys {
+		for _, v := range bad[k] {
+			cfg := cloneCfg(base)
+			cfg[k] = v
+			if k == "bufferCap" && v == "" || k == "enableCaller" && v == "" {
+				continue
+			}
+			err, p := r.refresh(cfg)
+			if p != "" {
+				r.fail(fmt.Sprintf("Refresh panics on %s=%q: %s", k, v, p), cfg)
+			} else if err == nil {
+				r.fail(fmt.Sprintf("Refresh accepts %s=%q, a value that does not convert / resolve", k, v), cfg)
+			}
+			r.outcome("bad:" + k)
+			r.done()
+		}
+	}
+
+	// (6) mutations of the valid configuration: nil or an error, never a panic
+	junk := []string{"", " ", "${", "${}", "${x}", "{", "}", "a{", "A{b=}", "\x00", "-1", "9223372036854775808", "true", "~", ",", "*", "_*", "a.b", "[0]", "Logger", "Console"}
+	var keys []string
+	for k := range base {
+		keys = append(keys, k)
+	}
+	sort.Strings(keys)
+	mutate := func(cfg map[string]string, what string) {
+		_, p := r.refresh(cfg)
+		if p != "" {
+			r.fail("Refresh panics on a mutated configuration ("+what+"): "+p, cfg)
+		}
+		r.outcome("mut:" + what)
+		r.done()
+	}
+	for _, k := range keys {
+		cfg := cloneCfg(base)
+		delete(cfg, k)
+		mutate(cfg, "delete "+k)
+		for _, j := range junk {
+			cfg := cloneCfg(base)
+			cfg[k] = j
+			mutate(cfg, "set "+k)
+			if thorough {
+				cfg = cloneCfg(base)
+				delete(cfg, k)
+				cfg[k+"!"] = j
+				mutate(cfg, "inline "+k)
+				cfg = cloneCfg(base)
+				cfg[k+"."+j] = j
+				mutate(cfg, "extend "+k)
+			}
+		}
+		for _, suffix := range []string{".type", "[0]", "[0].type", "[1].ref", ".layout.type", "!", ".x!", "."} {
+			for _, j := range []string{"Console", "TextLayout", "AppenderRef", "Nope", "{", "Console{}", "Console{layout=TextLayout{}}"} {
+				cfg := cloneCfg(base)
+				cfg[k+suffix] = j
+				mutate(cfg, "add "+k+suffix)
+			}
+		}
+	}
+	if thorough {
+		// pairs of deletions
+		for i, k1 := range keys {
+			for _, k2 := range keys[i+1:] {
+				cfg := cloneCfg(base)
+				delete(cfg, k1)
+				delete(cfg, k2)
+				mutate(cfg, "delete two")
+			}
+		}
+	}
+	fmt.Printf("BOUNDED: cases=%d distinct=%d bound=one base configuration (4 appenders, 2 loggers) x {every registered logger/appender class; 9 key spellings / inline forms; defaults, 7 required attributes, ${key}; %d ill-typed or unresolvable values over %d attributes; deletion of each of %d keys, %d junk values per key, 56 added sub-keys per key%s}; distinct counts distinct (kind, key) case classes\n",
+		r.cases, r.distinct, func() int {
+			n := 0
+			for _, v := range bad {
+				n += len(v)
+			}
+			return n
+		}(), len(bad), len(keys), len(junk), map[bool]string{true: ", inline/extended variants, all pairs of deletions", false: ""}[thorough])
+}
